@@ -118,7 +118,7 @@ func startC01Watchdog() {
 
 func c01Run(c c01Case) (allocated uint64, dur time.Duration, err error, perr error) {
 	ep := entryPoints[epIndex[c.EP]]
-	in := append([]byte(nil), c.B...)
+	in := exactCopy(c.B) // capacity == length: reading past the end panics instead of seeing spare capacity
 	cc := c
 	c01Started.Store(time.Now().UnixNano())
 	c01Current.Store(&cc)
@@ -243,7 +243,7 @@ func c01Sweep(t *testing.T, ep entryPoint, maxLen int) int64 {
 						continue
 					}
 					for fi, fill := range fills {
-						b := buf[:total]
+						b := buf[:total:total]
 						for i := range b {
 							b[i] = fill(i)
 						}
